@@ -2,6 +2,7 @@
 GEN = True             # go/extract/c04.go regenerates lean/BlugeGen/C04.lean (mutator / field-write / pool fact tables)
 STATELESS = False      # cases are writer lives; a failing case is shrunk line-wise
 EXEC_TIMEOUT = {"quick": 1500, "thorough": 7200}
+SEARCH_SCALE = 1       # the search after a correspondence break re-runs the generator with another seed at the same size
 REQUIRED_BRANCHES = [
     # model branches (driver) that a run must reach
     "intro-segment", "intro-persist", "intro-merge", "load-segment", "load-snapshot", "persister-grab",
